@@ -14,7 +14,8 @@ Generic runner `cbmc_query(qid, params, ctx)`; params keys:
   finding_key  optional python expression evaluated over the counterexample inputs `I` to give a key
   object_bits  default 12
   hunt_unwind  optional: first run cbmc with this blanket bound and WITHOUT unwinding assertions (bug hunting only); a
-               reproduced failure is reported, otherwise the full bounded run decides
+               reproduced failure is reported, otherwise the full bounded run decides (hunt_only: no full run, the query
+               is then UNDECIDED -- for regions where the full run is known not to finish)
   instrument   list of [repo-relative source, output file name, anchor regex, text(, "replace")]: a copy of the CURRENT /repo
                source with `text` inserted on a line of its own before the one line matching the anchor (or, with
                "replace", substituted for the matched text) is generated into
@@ -362,6 +363,12 @@ def cbmc_query(qid, params, ctx):
                 hunted = (rc, out, err, dt0, cmd)
     if hunted is not None:
         rc, out, err, dt, cmd = hunted
+    elif params.get("hunt_only"):
+        # the full bounded run is known not to finish for this query (stated in the plan): the pre-pass found nothing, which
+        # proves nothing -- reported as UNDECIDED, never as a pass
+        return {"status": UNDECIDED, "solver_time_s": dt0, "stats": {}, "cmd": " ".join(cmd),
+                "detail": ("bug-hunting pass only (--unwind %s, no unwinding assertions) " % params["hunt_unwind"]) +
+                          ("timed out" if rc == -999 else "found no violation") + "; not a proof"}
     else:
         rc, out, err, dt, cmd = run_cbmc(gbs, True)
     res = {"solver_time_s": dt, "stats": {}, "cmd": " ".join(cmd)}
